@@ -39,6 +39,7 @@ type Req struct {
 	Neg    string                 `json:"negative,omitempty"` // why an error is expected
 	RawURI interface{}            `json:"raw_uri,omitempty"`  // replaces the uri in renderings that carry one as data
 	Prep   string                 `json:"prepare,omitempty"`  // engine state the negative case needs
+	Echo   string                 `json:"echo,omitempty"`     // text the error message quotes from the request (must arrive unmangled)
 }
 
 type Resp struct {
@@ -484,6 +485,7 @@ func negatives(g *gen.Gen) []Req {
 		Req{URI: "/loc/rules/list", RawURI: map[string]interface{}{"a": "/api/loc/rules/list"}, Params: map[string]interface{}{"location": "plain"}, Neg: "typed-uri:the uri is a map"},
 		Req{URI: "/loc/rules/list", RawURI: []interface{}{"/api/loc/rules/list"}, Params: map[string]interface{}{"location": "plain"}, Neg: "typed-uri:the uri is an array"},
 		Req{URI: "/loc/facts/get", Params: map[string]interface{}{"location": "plain", "id": "never-added"}, Neg: "operation fails: no such fact"},
+		Req{URI: "/loc/facts/get", Params: map[string]interface{}{"location": "plain", "id": "100%sure %d"}, Neg: "operation fails: no such fact", Echo: "100%sure %d"},
 		Req{URI: "/loc/rules/add", Params: map[string]interface{}{"location": "plain", "rule": map[string]interface{}{"action": map[string]interface{}{"code": "1"}}}, Neg: "operation fails: rule without when/schedule"},
 		Req{URI: "/loc/facts/query", Params: map[string]interface{}{"location": "plain", "query": map[string]interface{}{"bogus": 1.0}}, Neg: "operation fails: unparsable query"},
 		Req{URI: "/loc/events/retry", Prep: "throwing-rule", Params: map[string]interface{}{"location": "plain", "work": `{"event":{"e":"boom"}}`}, Neg: "operation fails: the work reaches a rule whose condition throws"},
@@ -810,6 +812,8 @@ func main() {
 			}
 			if got.Status == 200 {
 				r.Violate(classifyNeg(q), fmt.Sprintf("%s answers 200 although %s", q.URI, q.Neg), wit)
+			} else if q.Echo != "" && !strings.Contains(got.Body, q.Echo) && !strings.Contains(got.Body, strings.Replace(q.Echo, `"`, `\"`, -1)) {
+				r.Violate("", fmt.Sprintf("the error response of %s does not render the request's own text (%q) as it was given", q.URI, q.Echo), wit)
 			}
 		}
 	}
